@@ -68,6 +68,21 @@ pub fn units(thorough: bool) -> Vec<Unit> {
             progs.push(vec![Publish(T0, 1)]);
             v.push(explore_unit(format!("sched/cap{}/delete-sub+delete-sub+{}queued+publish", cap, cap), "two DeleteSubscription of the same subscription, further requests queued on it, and a Publish on its topic", Bounds::new(d), cfg.clone(), program("delete-sub‖delete-sub‖queued‖publish", progs, false, false)));
         }
+        {
+            // a nack (and a lease expiry) handled while further requests are queued behind it
+            let mut progs = vec![vec![NackHeld(S0, 0)]];
+            for i in 0..cap + 1 {
+                progs.push(vec![[GetSub(S0), PullNow(S0, 10), ModHeld(S0, 0, 30)][i % 3].clone()]);
+            }
+            progs.push(vec![Publish(T0, 1)]);
+            v.push(explore_unit(format!("sched/cap{}/nack+{}queued+publish", cap, cap + 1), "a nack, further requests queued on the same subscription, and a Publish", Bounds::new(d), cfg.clone(), program("nack‖queued‖publish", progs, false, true)));
+            let mut progs = vec![];
+            for i in 0..cap + 2 {
+                progs.push(vec![Sleep(10_000), [GetSub(S0), PullNow(S0, 10), GetSub(S0)][i % 3].clone()]);
+            }
+            progs.push(vec![Sleep(10_000), Publish(T0, 1)]);
+            v.push(explore_unit(format!("sched/cap{}/expiry+{}queued+publish", cap, cap + 2), "a lease expires at the instant at which several requests and a Publish arrive", Bounds::new(d), cfg.clone(), program("expiry‖queued‖publish", progs, false, true)));
+        }
         v.push(explore_unit(format!("sched/cap{}/delete-topic+publish+create-sub", cap), "DeleteTopic ‖ Publish ‖ CreateSubscription on the same topic", Bounds::new(d), cfg.clone(), program("delete-topic‖publish‖create-sub", vec![vec![DeleteTopic(T0)], vec![Publish(T0, 2)], vec![CreateSub(S2, T0)]], true, false)));
         v.push(explore_unit(format!("sched/cap{}/publish+publish+list", cap), "two Publishes (two subscriptions) ‖ ListTopicSubscriptions ‖ Pull", Bounds::new(d), cfg.clone(), program("publish‖publish‖list", vec![vec![Publish(T0, 1)], vec![Publish(T0, 2)], vec![ListTopicSubs(T0)], vec![PullNow(S0, 10)]], true, false)));
         v.push(explore_unit(format!("sched/cap{}/delete-sub+delete-sub+publish", cap), "two DeleteSubscription of the same subscription ‖ Publish", Bounds::new(d), cfg.clone(), program("delete-sub‖delete-sub", vec![vec![DeleteSub(S0)], vec![DeleteSub(S0)], vec![Publish(T0, 1)]], true, false)));
